@@ -263,8 +263,11 @@ class Gen:
     Every task has variable r: R (In parameter, or Out of its first service).
     """
 
-    def __init__(self, rng, depth=3, ntasks=3, ploops=True, params=True, services="ABCD", focus=None, ploop_lit_in_loop=False, shadow_loopvars=True):
+    def __init__(self, rng, depth=3, ntasks=3, ploops=True, params=True, services="ABCD", focus=None, ploop_lit_in_loop=False, shadow_loopvars=True, any_shape=False):
         self.ploop_lit_in_loop = ploop_lit_in_loop
+        # any_shape: parallel loops in every position, also the shapes of the known findings (K1-K5); such programs are
+        # compared with the net layer of the model only, never judged by the monitors
+        self.any_shape = any_shape
         self.shadow_loopvars = shadow_loopvars
         self.rng = rng
         self.depth = depth
@@ -364,7 +367,7 @@ class Gen:
             kinds += ["cond", "cond", "cloop", "wloop"]
             if callees:
                 kinds += ["call", "call", "par"]
-                if self.ploops and (ctx["ploop_ok"] or (ctx.get("inloop") and self.ploop_lit_in_loop)):
+                if self.ploops and (self.any_shape or ctx["ploop_ok"] or (ctx.get("inloop") and self.ploop_lit_in_loop)):
                     # inside a loop of the same task only with a literal limit (a variable limit there is finding K3b)
                     kinds += ["ploop"]
         if self.focus and depth > 0:
@@ -404,7 +407,7 @@ class Gen:
             return {"k": "wloop", "e": gen_guard(rng), "body": self.gen_block(depth - 1, callees, c2)}
         if k == "ploop":
             v = self.fresh_loopvar(lv)
-            lim = rng.choice([0, 1, 2, 3]) if (rng.random() < 0.5 or ctx.get("inloop")) else rng.choice(NUM_PATHS)
+            lim = rng.choice([0, 1, 2, 3]) if (rng.random() < 0.5 or (ctx.get("inloop") and not self.any_shape)) else rng.choice(NUM_PATHS)
             return {"k": "ploop", "var": v, "limit": lim, "call": self.call(callees, lv + [v])}
         raise ValueError(k)
 
@@ -540,7 +543,7 @@ def gen_program(rng, **kw):
     """a random valid program outside the known-finding shapes"""
     for _ in range(200):
         prog = Gen(rng, **kw).program()
-        if not ploop_shapes(prog, literal_in_loop_ok=bool(kw.get("ploop_lit_in_loop"))):
+        if kw.get("any_shape") or not ploop_shapes(prog, literal_in_loop_ok=bool(kw.get("ploop_lit_in_loop"))):
             return prog
     kw = dict(kw, ploops=False)
     return Gen(rng, **kw).program()
